@@ -92,6 +92,29 @@ prop("C18", "exploration",
 
 ORDER = ["C%02d" % i for i in range(1, 19)]
 
+
+# additions of the session that built the real-node, docs-API and large-size families (appended to the texts above)
+EXTRA = {
+ "C01": "Big sets: four shapes of 300 (thorough 1100) entries per side, both initiators (thorough also split factor 4, file-backed, actor-held).",
+ "C02": "One insert superseding 1100 entries (36 shapes: key, value kind, timestamp tie or newer, ingress path) followed by a late child that must stay out.",
+ "C03": "The tamper alphabet also holds entries naming a foreign / unknown document but namespace-signed with our secret. Family G: a real node (Docs engine, gossip receive loop, store actor) is sent the candidates by a hostile gossip neighbour (an endpoint of the harness joined to the topic), each followed by a valid probe entry; replica content, continued reception and the docs-API subscriber's events are checked after every candidate.",
+ "C04": "Family L: swarms of 2 and 3 real nodes in one process (Docs engine with live actor and gossip receive loop behind a Router on loopback QUIC); every history of writes, prefix deletions, join, leave and waiting points up to the depth bound, clocks increasing and stepping back; the closing phase asks the engines for sessions and counts only those the engines report as successful; then all nodes hold the merge of the accepted writes and nothing else. The network schedule inside a history is the real one (one execution per history).",
+ "C05": "Windows at the ends of the number range (offset / limit 2^64-1); one big state (225 entries) under windows around 64, 150, 225 and 256. Family api: the big state and a sample of the small states are written and queried through the docs API of a real Engine (Doc::get_many / get_exact).",
+ "C06": "Family D: after 1100 durable entries below one prefix, histories of operations that supersede all of them. Family E: histories of writes, flush_store requests and 150 ms pauses through the store actor of a file-backed store; the file copied right after every acknowledged flush, and after shutdown, holds exactly the acknowledged writes.",
+ "C07": "The actor family also has drop_replica (removal restarts the capability history of the document).",
+ "C09": "Keys of 63..20000 bytes: the entry, every message of a real session carrying it and their frames survive encode-then-decode, whole and cut.",
+ "C10": "Big sets (450 entries per side) over in-memory pipes smaller than one frame and over QUIC, fault-free and with faults; a hostile initiator that completes the exchange and then sends one byte too many (the acceptor's closing step fails): the reported error must still name peer and document.",
+ "C11": "An accepted session may also end with AcceptError::Close; the search that delivers actor messages also delivers NeighborDown (nothing about the pair may change). Family L (real nodes): in every node's own record the sessions with one peer never overlap, and after all traffic has ended a node that is asked for a session every 250 ms reports at least one finished or failed session.",
+ "C12": "Sequences that start with the document held read-only and import the write capability while it is open and subscribed. Family L (real nodes): a subscriber of the docs API on every node sees exactly its node's accepted local writes in order, every remote entry at most once, one for every remote entry the node holds at the end, and nothing nobody wrote.",
+ "C13": "Reports also name an author never seen whose id sorts before, between or after the known authors.",
+ "C14": "The alphabet holds a read-only import for the second document (so that the write import is an upgrade of an open, subscribed document); one history takes 300 handles on a document and releases them one by one.",
+ "C15": "Family L (real nodes): the last node of the swarm is given one of five policies; of the contents written elsewhere it fetches exactly those whose key the policy selects (selected and still held: present within the deadline; not selected: absent).",
+ "C16": "Removal and re-creation of a 1102-entry document (13 authors, among them the all-zero and the all-0xFF id) between its byte-order neighbours.",
+ "C18": "A database of 2100 authors with two entries each goes through the same table deletions and reopen cycles.",
+}
+for _pid, _t in EXTRA.items():
+    P[_pid]["text"] = P[_pid]["text"].rstrip() + " " + _t
+
 def main():
     checks = []
     na = []
